@@ -2608,8 +2608,10 @@ func (t *Terminal) printInfoImpl() {
 }
 
 func (t *Terminal) resizeIfNeeded() bool {
-	// Check if input border is used and input has changed
-	if t.inputBorderShape.Visible() && t.inputWindow == nil && !t.inputless || t.inputWindow != nil && t.inputless {
+	// Check if the input section needs a window of its own (same condition as in
+	// resizeWindows) and the input has changed
+	wantInputWindow := !t.inputless && (t.inputBorderShape.Visible() || t.hasHeaderWindow() || t.hasHeaderLinesWindow())
+	if wantInputWindow != (t.inputWindow != nil) {
 		t.printAll()
 		return true
 	}
